@@ -388,7 +388,11 @@ func c13Lookup(c *Ctx, bands *tables.Bands, cfg *tables.BandConfig, drs []tables
 		r.Unknown("R6.lookup", cfg.Short()+"/GetDataRateIndex", c.Prog.Rel(fd.Pos()), "two parameters", fmt.Sprint(pn))
 		return
 	}
-	m := cfg.Base.Fields["dataRates"].(*tables.Map)
+	m, okM := cfg.DataRatesMap()
+	if !okM {
+		r.Unknown("R6.lookup", cfg.Short()+"/GetDataRateIndex", c.Prog.Rel(fd.Pos()), "evaluated data-rate table", "not a table of constant entries")
+		return
+	}
 	for _, e := range m.Entries {
 		k, _ := tables.AsInt(e.K)
 		for _, up := range []bool{true, false} {
